@@ -3,6 +3,7 @@ package llvc
 import (
 	"fmt"
 	"sort"
+	"strings"
 
 	"bngvc/smt"
 )
@@ -63,14 +64,14 @@ func (e *executor) newRegion(kind, name string, size int64) *Region {
 	case rkInvalid:
 		r.base = lit(0, 64)
 	default:
-		r.base = e.ctx.Const(fmt.Sprintf("base_r%d_%s", r.ID, smt.Sanitize(name)), smt.BV(64))
+		r.base = e.tm.declConst(fmt.Sprintf("base_r%d_%s", r.ID, smt.Sanitize(name)), smt.BV(64))
 		lo, hi := uint64(1)<<16, uint64(1)<<47
 		if kind == rkPacket {
 			hi = uint64(1) << 31
 		}
-		e.ctx.Axiom("base:"+r.base.S, smt.And(smt.App(smt.Bool, "bvuge", r.base, lit(lo, 64)), smt.App(smt.Bool, "bvult", r.base, lit(hi, 64))), r.base.S)
+		e.tm.axiom("base:"+r.base.S, smt.And(smt.App(smt.Bool, "bvuge", r.base, lit(lo, 64)), smt.App(smt.Bool, "bvult", r.base, lit(hi, 64))), r.base.S)
 	}
-	arr := e.ctx.Const(fmt.Sprintf("mem0_r%d_%s", r.ID, smt.Sanitize(name)), arrSort)
+	arr := e.tm.declConst(fmt.Sprintf("mem0_r%d_%s", r.ID, smt.Sanitize(name)), arrSort)
 	r.init = &RegMem{Base: arr, Ov: map[int64]Byte{}}
 	return r
 }
@@ -130,10 +131,10 @@ func (e *executor) flush(m *RegMem) *RegMem {
 	for i, k := range keys {
 		arr = smt.Store(arr, lit(uint64(k), 64), e.byteTerm(m.Ov[k]))
 		if i%16 == 15 {
-			arr = e.ctx.Let("mem", arr)
+			arr = e.tm.named("mem", arr)
 		}
 	}
-	return &RegMem{Base: e.ctx.Let("mem", arr), Ov: map[int64]Byte{}}
+	return &RegMem{Base: e.tm.named("mem", arr), Ov: map[int64]Byte{}}
 }
 
 // loadRegion reads n bytes at off from region id.
@@ -174,7 +175,11 @@ func (e *executor) assemble(bs []Byte) *Val {
 		}
 	}
 	if whole {
-		return bs[0].V
+		v := bs[0].V
+		if n == 1 && !v.IsPtr && strings.HasPrefix(v.T.S, "(select ") {
+			return intVal(e.tm.named("ld", v.T), 8)
+		}
+		return v
 	}
 	var parts []smt.Term // least significant first
 	for i := 0; i < n; {
@@ -216,7 +221,7 @@ func (e *executor) storeRegion(st *State, id int, off smt.Term, v *Val) {
 	for i := 0; i < n; i++ {
 		arr = smt.Store(arr, e.tm.addConst(off, uint64(i)), e.byteTerm(Byte{V: v, Idx: i}))
 	}
-	st.mem[id] = &RegMem{Base: e.ctx.Let("mem", arr), Ov: map[int64]Byte{}}
+	st.mem[id] = &RegMem{Base: e.tm.named("mem", arr), Ov: map[int64]Byte{}}
 }
 
 type mergeKey struct {
@@ -248,8 +253,8 @@ func (e *executor) mergeVal(c smt.Term, a, b *Val) *Val {
 		out = intVal(e.tm.let("m", smt.Ite(c, e.bitsOf(a), e.bitsOf(b))), a.W)
 	default:
 		if a.T.S == b.T.S && a.P == nil && b.P == nil {
-			out = a
-			break
+			e.mergeMemo[k] = a
+			return a
 		}
 		out = &Val{W: a.W, T: e.tm.let("m", smt.Ite(c, a.T, b.T)), UB: a.UB}
 		if b.UB > out.UB {
@@ -259,6 +264,7 @@ func (e *executor) mergeVal(c smt.Term, a, b *Val) *Val {
 			out.P = e.mergePtr(c, a.P, b.P)
 		}
 	}
+	out.Ite = &iteRec{C: c, A: a, B: b}
 	e.mergeMemo[k] = out
 	return out
 }
@@ -272,7 +278,7 @@ func (e *executor) mergePtr(c smt.Term, a, b *Ptr) *Ptr {
 		p.OffUB = b.OffUB
 	}
 	if len(p.Reg.S) > 40 {
-		p.Reg = e.ctx.Let("reg", p.Reg)
+		p.Reg = e.tm.named("reg", p.Reg)
 	}
 	seen := map[int]bool{}
 	for _, x := range a.Cands {
@@ -425,5 +431,5 @@ func (e *executor) mergeMem(c smt.Term, a, b *RegMem) *RegMem {
 		return out
 	}
 	fa, fb := e.flush(a), e.flush(b)
-	return &RegMem{Base: e.ctx.Let("mem", smt.Ite(c, fa.Base, fb.Base)), Ov: map[int64]Byte{}}
+	return &RegMem{Base: e.tm.named("mem", smt.Ite(c, fa.Base, fb.Base)), Ov: map[int64]Byte{}}
 }
